@@ -228,6 +228,7 @@ pub fn property() -> Property {
              gradient tolerance 1e-4, 100 iterations; Tweedie: link = identity for power <= 0 and log otherwise per the doc comment of `link`, alpha 1, fit_intercept true, power 1, tol 1e-4, \
              max_iter 100 as set by TweedieRegressorParams::new(), which mirrors scikit-learn)"
                 .into(),
+            format!("a non-stationary GLM result whose harness Hessian has a condition number above {:e} is counted as ill-conditioned, not judged (the feature shrinking can create such problems at target scale 1e6)", glm::COND_MAX),
             "only f64 is exercised".into(),
             format!("oracle self-test: analytic gradient/Hessian of the harness objectives agree with central differences within {:e} relative", FD_TOL),
         ],
